@@ -40,7 +40,8 @@ RULE = P5.RULE.replace('Non-trivial: >= 2 statements and >= 12 tokens regenerate
                        'terminators incl. end if / end while / end for, doubled, on lines of their own, at the beginning of the body '
                        'and of nested blocks); about a third of the models additionally hold 1-6 user data types NAMED LIKE a data '
                        'type the model already has (core types, inst_ref<Object>, inst<Event>, enumerations, user-defined and '
-                       'instance-reference types; created after them), types being compared by instance; '
+                       'instance-reference types; created after them), types being compared by instance; a focused family of bodies '
+                       'that mention self inside and after nested blocks (operation, derived attribute, state action); '
                        'Non-trivial: >= 2 statements, >= 3 value instances and >= 1 variable created')
 EXHAUSTIVE = {'quick': False, 'thorough': False}
 ASSUMPTIONS = P5.ASSUMPTIONS + [
@@ -246,6 +247,14 @@ def generate(ctx):
                'gstats': dict(g.stats),
                'trail': [r.choice(['', ' ', '\n', '\n\n']) for _ in homes],
                'via_model': poison is None and r.random() < 0.6})
+    # `self` in and around nested blocks (instance-based homes): first mentioned inside an if / elif / else / while
+    # block and again after it, in sibling blocks, only outside ...: every mention designates a variable of a block around it
+    rng = ctx.rng.fork('selfscope')
+    for home in ('operation', 'derived', 'state'):
+        for j in range(ctx.pick(5, 60)):
+            r = rng.fork(home, j)
+            yield _dimensions(ctx.rng.fork('dims', 'selfscope', home, j),
+                              P5._case(r, 0, home, r.randint(3, 7), set(['self_attr', 'if', 'while', 'assign', 'attr'])))
     for i, c in enumerate(P5.generate(ctx, n_quick=1500, multi=False, bare=True)):
         yield _dimensions(ctx.rng.fork('dims', i), c)
 
@@ -371,6 +380,116 @@ def _tdesc(s_dt, orig):
     return 'ANOTHER data type named %s (a user data type added to the model, not the model\'s %s)' % (s_dt.Name, s_dt.Name)
 
 
+class _GiveUp(Exception):
+    pass
+
+
+def statement_starts(text):
+    """(line, column) of the first character of every statement (not of the elif / else clauses: they are parts of their
+    if statement; the parser of the repository begins an elif clause at its condition, an else clause at `else`, which is
+    compared with the parsed tree only), read off the TEXT alone
+    (no parser of the repository): a scanner for the statement skeleton of the generated bodies - a statement begins at
+    the first token after the `;` of the statement before it, after the head of the block that holds it (`if (..) [then]`,
+    `elif (..) [then]`, `else`, `while (..) [loop]`, `for each x in s [loop]`) or at the beginning of the body; a simple
+    statement extends to its `;`; a lone `;` is an empty statement (no statement).  Comments, string literals and ticked
+    phrases are single tokens.  None when the text is not of that shape (never for a generated body)."""
+    with_empties('', 0)         # compiles _SEMI
+    toks = [(mt.start(), mt.group()) for mt in _SEMI.finditer(text)
+            if not mt.group().isspace() and not mt.group().startswith(('/*', '//'))]
+    n = len(toks)
+    pos = [0]
+    starts = []
+
+    def low():
+        return toks[pos[0]][1].lower() if pos[0] < n else None
+
+    def take(*words):
+        if low() not in words:
+            raise _GiveUp()
+        pos[0] += 1
+
+    def parens():
+        take('(')
+        depth = 1
+        while depth:
+            if pos[0] >= n:
+                raise _GiveUp()
+            depth += {'(': 1, ')': -1}.get(toks[pos[0]][1], 0)
+            pos[0] += 1
+
+    def mark(clause=False):
+        a = toks[pos[0]][0]
+        if not clause:
+            starts.append((text.count('\n', 0, a) + 1, a - text.rfind('\n', 0, a)))
+
+    def stmts(stop):
+        while pos[0] < n:
+            t = low()
+            if t == ';':
+                pos[0] += 1
+            elif t in stop:
+                return
+            elif t in ('if', 'while'):
+                mark()
+                pos[0] += 1
+                parens()
+                if low() == ('then' if t == 'if' else 'loop'):
+                    pos[0] += 1
+                stmts(('elif', 'else', 'end'))
+                while t == 'if' and low() == 'elif':
+                    mark(True)
+                    pos[0] += 1
+                    parens()
+                    if low() == 'then':
+                        pos[0] += 1
+                    stmts(('elif', 'else', 'end'))
+                if t == 'if' and low() == 'else':
+                    mark(True)
+                    pos[0] += 1
+                    stmts(('end',))
+                take('end')
+                take(t)
+                take(';')
+            elif t == 'for':
+                mark()
+                take('for')
+                take('each')
+                pos[0] += 1
+                take('in')
+                pos[0] += 1
+                if low() == 'loop':
+                    pos[0] += 1
+                stmts(('end',))
+                take('end')
+                take('for')
+                take(';')
+            else:
+                mark()
+                while low() != ';':
+                    if pos[0] >= n:
+                        raise _GiveUp()
+                    pos[0] += 1
+                pos[0] += 1
+    try:
+        stmts(())
+    except (_GiveUp, IndexError):
+        return None
+    return starts
+
+
+def _start_check(text, smts, fail, stats, where=''):
+    want = statement_starts(text)
+    if want is None:
+        stats['statement_scanner_gave_up'] = stats.get('statement_scanner_gave_up', 0) + 1
+        return
+    one = _rig.xtuml.navigate_one
+    got = sorted((s.LineNumber, s.StartPosition) for s in smts if one(s).ACT_EL[603]() is None and one(s).ACT_E[603]() is None)
+    if got != sorted(want):
+        odd = sorted(set(got) ^ set(want))
+        fail('statement-start', '%sthe ACT_SMT instances (elif / else clauses aside) start at (line, column) %s; the statements '
+             'of the text begin at %s (where they differ: %s)' % (where, got, sorted(want), odd))
+
+
 def _prog_lists(prog, out):
     """the number of statements of every statement list of the abstract program, in source order of the lists' beginnings"""
     out.append(len(prog))
@@ -426,6 +545,9 @@ class Typer(object):
         self.chains = []            # per select-related: ((line, col) of the statement, [(kl, rel, phrase)])
         self.cur_stmt = None
         self.holes = 0
+        self.parents = []           # per StatementListNode: index of the list that holds its owning statement (None: the body)
+        self._open = []             # indices of the lists being walked, outermost first
+        self.var_reads = []         # (key of the expression, variable name, index of the list holding its statement)
 
     def at(self, pos):
         """(line, start column, end column) of a node, computed HERE from the text and the node's character offsets
@@ -482,6 +604,8 @@ class Typer(object):
                 self.ambiguous.add(key)
             self.values[key] = (rule, ty)
             self.value_keys.append(key)
+            if rule in ('variable', 'self') and self._open:
+                self.var_reads.append((key, 'self' if rule == 'self' else b[1], self._open[-1]))
         return ty
 
     def _expr(self, head, b):
@@ -609,6 +733,8 @@ class Typer(object):
 
     def stmt_list(self, sl):
         starts = []
+        self.parents.append(self._open[-1] if self._open else None)
+        self._open.append(len(self.lists))
         self.lists.append(starts)
         self.owners.append(self._owner)
         for st in sl[1:]:
@@ -620,6 +746,7 @@ class Typer(object):
                 continue
             starts.append(self.at(pos)[:2])
             self.stmt(st)
+        self._open.pop()
 
     def where(self, kl, x):
         self.sel.append(kl)
@@ -775,6 +902,7 @@ def run_multi(case):
             'derived': lambda h: one(h).ACT_DAB[693].ACT_ACT[698](),
             'state': lambda h: one(h).ACT_SAB[691].ACT_ACT[698]()}
     nst = 0
+    mstats = {}
     for hn in hns:
         ty = Typer(hn, texts[hn])
         enc = oal_sexp.encode(rig.parse(texts[hn]), positions=True)
@@ -794,6 +922,7 @@ def run_multi(case):
                      for s in many(act_act).ACT_BLK[601].ACT_SMT[602]())
         want = sorted(ty.stmts)
         nst += len(want)
+        _start_check(texts[hn], list(many(act_act).ACT_BLK[601].ACT_SMT[602]()), fail, mstats, 'in the %s action ' % hn)
         if got != want:
             fail('statement-position', 'the %s action holds the same body as the other actions of the model up to leading / '
                  'trailing layout; its ACT_SMT (line, start, end) = %s, the statements of its own text are at %s'
@@ -827,7 +956,8 @@ def run_multi(case):
                                            ).hexdigest()[:16],
             'stats': dict({'multi_action_models': 1, 'multi_actions': len(hns), 'rejected_action_first': int(poisoned),
                            'statements': nst, 'bodies_with_added_empty_statements': int(bool(case.get('empties'))),
-                           'models_with_same_named_data_types': int(bool(case.get('shadow')))}, **dict(('gen_' + k, v) for k, v in (case.get('gstats') or {}).items()))}
+                           'models_with_same_named_data_types': int(bool(case.get('shadow')))},
+                          **dict(list(mstats.items()) + [('gen_' + k, v) for k, v in (case.get('gstats') or {}).items()]))}
 
 
 def run_reject(case):
@@ -913,7 +1043,10 @@ def run_impl(case):
     if sorted((v.LineNumber, v.StartPosition, v.EndPosition) for v in vals) != sorted(ty.value_keys):
         fail('value-count', '%d V_VAL instances for %d expressions of the source, or at other positions'
              % (len(vals), len(ty.value_keys)))
-    # positions of statements
+    # positions of statements: where a statement begins is read off the TEXT (statement_starts), the end column is the
+    # parsed node's
+    xstats = {}
+    _start_check(text, smts, fail, xstats)
     got = sorted((s.LineNumber, s.StartPosition, getattr(s, 'EndPosition', None)) for s in smts)
     want = sorted(ty.stmts)
     if got != want:
@@ -943,6 +1076,7 @@ def run_impl(case):
         owner_rel = {'if': ('ACT_IF', 607), 'elif': ('ACT_EL', 658), 'else': ('ACT_E', 606), 'while': ('ACT_WHL', 608),
                      'for': ('ACT_FOR', 605)}
         seen_blocks = []
+        list_blocks = []            # per statement list of the text: its ACT_BLK
         for starts, owner in zip(ty.lists, ty.owners):
             held = []
             for p in starts:
@@ -963,6 +1097,7 @@ def run_impl(case):
                     fail('block-structure', 'the statements nested in the %s at line %d column %d are not held by the block '
                          'that %s relates to' % (role, opos[0], opos[1], role))
                 blk = oblk if oblk is not None else blk
+            list_blocks.append(blk)
             if blk is not None:
                 if any(blk is x for x in seen_blocks):
                     fail('block-structure', 'two statement lists of the source share one ACT_BLK')
@@ -1074,6 +1209,30 @@ def run_impl(case):
             if want_blk is not act_blk:
                 fail('variable-block', 'the V_VAR %s declared by the statement at line %d column %d is related over R823 '
                      'to another block than the one holding that statement' % (v_var.Name, inner[2][0], inner[2][1]))
+        # a variable belongs to the block that declares it: it is known in that block and the blocks nested in it, nowhere
+        # else (a name mentioned after its block has ended denotes / declares ANOTHER variable).  So the V_VAR a value reads
+        # (R805 transient, R808 instance handle incl. self, R809 instance set) belongs over R823 to the block of the
+        # statement list holding the value's statement or to a block around it - lists and nesting taken from the text
+        for key, name, li in ty.var_reads:
+            if key in ty.ambiguous:
+                continue
+            around = []
+            j = li
+            while j is not None:
+                around.append(list_blocks[j])
+                j = ty.parents[j]
+            for v in val_by_pos.get(key, []):
+                v_var = (one(v).V_TVL[801].V_VAR[805]() or one(v).V_IRF[801].V_VAR[808]() or one(v).V_ISR[801].V_VAR[809]())
+                if v_var is None:
+                    continue
+                blk = one(v_var).ACT_BLK[823]()
+                xstats['variable_reads_scope_checked'] = xstats.get('variable_reads_scope_checked', 0) + 1
+                if blk is not None and not any(blk is x for x in around):
+                    fail('variable-scope', 'the value at line %s columns %s-%s reads the variable %s; the V_VAR it is related to '
+                         'belongs (R823) to a block that does not enclose the statement of this value%s: a variable belongs to '
+                         'the block that declares it, and a name mentioned outside that block denotes another variable'
+                         % (key[0], key[1], key[2], name,
+                            ' (the block of a nested statement list that has ended or lies elsewhere)'))
         nvar = len([v for v in m.select_many('V_VAR') if v.Name != 'self'])
         if nvar != len(ty.decls):
             fail('variable-count', '%d V_VAR instances (self excluded) for %d declarations in the source: %s'
@@ -1087,6 +1246,7 @@ def run_impl(case):
     srt = lambda rows: sorted(rows, key=lambda r: (len(r), dumps(r)))
     misses, hits = _recipe_misses(m)
     stats.update(hits)
+    stats.update(xstats)
     stats.update(stats_schema)
     P5._gen_stats(case, text, stats)
     var_obs = []
